@@ -260,7 +260,7 @@ CLAIMED = {
         "technique": "Coq proof (fuel sufficiency; loop invariant over common anchor names) + differential correspondence + dump/reload judge",
     },
     "C15": {
-        "text": ("12 theorems (Coq, no axioms) over the evaluator model with the keyword model plugged in "
+        "text": ("13 theorems (Coq, no axioms) over the evaluator model with the keyword model plugged in "
                  "(EvalKw.v): for every document, every prepared path of the fragment INCLUDING keyword-search "
                  "segments at any position, and all answering oracles, the stream of a required query, of exists() "
                  "and of an optional query ends normally or with a YAMLPathException (optional: or at the node "
@@ -271,7 +271,8 @@ CLAIMED = {
                  "collectors: the same under the computable guard kc_fragment (leading collector chain whose "
                  "operands select scalars - the property's own restriction), with C15_collector_nonscalar_refuted; "
                  "text glued to a collector ('(a)b', the former finding F25) parses like '(a).b' since the "
-                 "repair and is inside the guard.  Tie: exhaustive small documents x paths "
+                 "repair and is inside the guard; C15_bracket_collector_refuted: '[(a)]' and '(][max(())]' still "
+                 "reach NotImplementedError (listed finding F30).  Tie: exhaustive small documents x paths "
                  "with indexes / slice bounds negative, in range, out of range, all search forms, keyword "
                  "segments at every position, scalar collectors; required / optional / exists()."),
         "design_ref": "DESIGN.md section 4 (C15), docs/C15.md",
